@@ -248,10 +248,15 @@ def build_harness_facts(name, crates, repo=None, subst=None):
     driver (RUSTC_WRAPPER, because path dependencies are not workspace members) and returns the fact dir."""
     repo = repo or REPO
     key = repo_hash(repo)
-    out = os.path.join(CACHE, key, "harness-" + name)
+    src = os.path.join(VERIF, "harness", name)
+    hh = hashlib.sha256()
+    for root, ds, fs in sorted(os.walk(src)):
+        for f in sorted(fs):
+            hh.update(f.encode())
+            hh.update(open(os.path.join(root, f), "rb").read())
+    out = os.path.join(CACHE, key, "harness-%s-%s" % (name, hh.hexdigest()[:10]))
     if os.path.isfile(os.path.join(out, "DONE")):
         return out
-    src = os.path.join(VERIF, "harness", name)
     work = tempfile.mkdtemp(prefix="pestfacts-harness-")
     tmp_out = out + ".tmp%d" % os.getpid()
     shutil.rmtree(tmp_out, ignore_errors=True)
